@@ -881,6 +881,20 @@ class Paths:
                     return [([], [], err(_from(r[2][0], key[2])))]
                 return [([], [], err(("errpayload", r)))]
             return None
+        if name in ("checked_sub", "checked_add") and path.startswith("core::num::<impl u") and len(args) == 2:
+            # unsigned checked arithmetic is the case split it stands for: `a.checked_sub(b)` is Some(a - b) iff b <= a;
+            # `a.checked_add(b)` is Some(a + b) iff a + b fits the type
+            x, y = A(0), A(1)
+            if name == "checked_sub":
+                if y == ("const", 1):     # the spellings `x == 0` / `0 < x` that a written-out guard produces
+                    return [([("eq", x, ("const", 0))], [], NONE), ([("lt", ("const", 0), x)], [], some(mk_bin("Sub", x, y)))]
+                return [([("lt", x, y)], [], NONE), ([("le", y, x)], [], some(mk_bin("Sub", x, y)))]
+            ty = path[len("core::num::<impl "):].split(">")[0]
+            bits = {"u8": 8, "u16": 16, "u32": 32, "u64": 64, "usize": 64, "u128": 128}.get(ty)
+            if bits:
+                top = ("const", (1 << bits) - 1)
+                sm_ = mk_bin("Add", x, y)
+                return [([("lt", top, sm_)], [], NONE), ([("le", sm_, top)], [], some(sm_))]
         if name in ("then", "then_some") and path.startswith("core::bool::") and len(args) == 2:
             c = A(0)
             out = []
